@@ -26,6 +26,7 @@ void harness(void) {
   IN(_Bool, packed); IN(int, attr_k); ASSUME(0 <= attr_k && attr_k <= 4);
   IN(_Bool, bf0); IN(_Bool, bf1); IN(_Bool, bf2); IN(int, w0); IN(int, w1); IN(int, w2); IN(_Bool, nm0); IN(_Bool, nm1); IN(_Bool, nm2);
   _Bool bf[3] = {bf0, bf1, bf2}; int w[3] = {w0, w1, w2}; _Bool nm[3] = {nm0, nm1, nm2};
+  IN(int, cnt0); IN(int, cnt1); IN(int, cnt2); int cnt[3] = {cnt0, cnt1, cnt2}; int msz[3];   /* a non-bit-field member may be an array: size = count * element size */
   for (int i = 0; i < 3; i++) {
     ASSUME(0 <= w[i] && w[i] <= sz[i] * 8);
     ASSUME(nm[i] || bf[i]);                 /* only bit-fields can be unnamed here (anonymous aggregates: separate shape) */
@@ -33,12 +34,14 @@ void harness(void) {
 #ifdef NO_BITFIELDS
     ASSUME(!bf[i]);
 #endif
-    MT[i] = (Type){TY_INT, sz[i], sz[i]};
+    ASSUME(1 <= cnt[i] && cnt[i] <= 3);
+    msz[i] = bf[i] ? sz[i] : sz[i] * cnt[i];
+    MT[i] = (Type){TY_INT, msz[i], sz[i]};
     MM[i] = (Member){0};
     MM[i].ty = &MT[i]; MM[i].align = al[i]; MM[i].is_bitfield = bf[i]; MM[i].bit_width = bf[i] ? w[i] : 0;
     MM[i].name = nm[i] ? &NAME : 0; MM[i].idx = i;
     MM[i].next = (i + 1 < n) ? &MM[i + 1] : 0;
-    sm[i] = (SpecMem){sz[i], al[i], bf[i], bf[i] ? w[i] : 0, nm[i]};
+    sm[i] = (SpecMem){msz[i], al[i], bf[i], bf[i] ? w[i] : 0, nm[i]};
   }
   TT = (Type){0}; TT.kind = TY_STRUCT; TT.size = 0; TT.align = 1 << attr_k; TT.is_packed = packed; TT.members = &MM[0];
   Token *rest = 0; Token tok = {0};
@@ -66,12 +69,12 @@ void harness(void) {
   // property-level consequences, independent of the spec function: no two members share a bit, a bit-field never
   // straddles a unit of its declared type, non-packed members are aligned
   for (int i = 0; i < 3; i++) if (i < n && !(bf[i] && w[i] == 0)) {
-    int lo_i = MM[i].offset * 8 + (bf[i] ? MM[i].bit_offset : 0), hi_i = lo_i + (bf[i] ? w[i] : sz[i] * 8);
+    int lo_i = MM[i].offset * 8 + (bf[i] ? MM[i].bit_offset : 0), hi_i = lo_i + (bf[i] ? w[i] : msz[i] * 8);
     OBLIGE(hi_i <= t->size * 8, "C08.3 every member lies inside the struct");
     OBLIGE(!bf[i] || (MM[i].bit_offset >= 0 && MM[i].bit_offset + w[i] <= sz[i] * 8 && MM[i].offset % sz[i] == 0), "C08.3 a bit-field does not straddle its storage unit");
     OBLIGE(bf[i] || packed || MM[i].offset % al[i] == 0, "C08.3 a member is aligned to its alignment");
     for (int j = 0; j < i; j++) if (!(bf[j] && w[j] == 0)) {
-      int lo_j = MM[j].offset * 8 + (bf[j] ? MM[j].bit_offset : 0), hi_j = lo_j + (bf[j] ? w[j] : sz[j] * 8);
+      int lo_j = MM[j].offset * 8 + (bf[j] ? MM[j].bit_offset : 0), hi_j = lo_j + (bf[j] ? w[j] : msz[j] * 8);
       OBLIGE(hi_j <= lo_i, "C08.3 members are laid out in declaration order without overlap");
     }
   }
